@@ -5,8 +5,9 @@
 From Dashu Require Import Base.Prelude Base.Words Int.RingSpec Int.RingSign Int.RingAdd Int.RingAddProofs
   Int.RingMul Int.RingMulProofs Int.RingKaraProofs Int.RingToomProofs Int.RingToomW Int.RingToomWProofs Int.RingDispatchProofs Int.RingSqrProofs
   Int.RingOps Int.RingOpsProofs Int.RingOpsMulProofs Int.RingPowProofs Int.RingTop Int.RingExamples
-  Int.DivWordModel Int.DivWordProofs Int.RingMulW Int.RingMulWProofs Int.RingOpsW Int.RingOpsWProofs Int.RingTopW.
-From DashuGen Require Import SignTables Params.
+  Int.DivWordModel Int.DivWordProofs Int.RingMulW Int.RingMulWProofs Int.RingOpsW Int.RingOpsWProofs
+  Int.RingScratch Int.RingScratchProofs Int.RingPowW Int.RingPowWProofs Int.RingTopW Int.RingPrim Int.RingPrimProofs.
+From DashuGen Require Import SignTables Params MulMemory.
 Open Scope Z_scope.
 
 (** ---- IBig sign tables (regenerated from add_ops.rs / mul_ops.rs on every run) *)
@@ -348,3 +349,119 @@ Theorem C01_ibig_cubic_word_level : forall w, 8 <= w -> forall div2by1,
     srepr_value w r = cubic_spec (signed s (repr_value w x)) /\ twf w (snd r).
 Proof. exact ibig_cubic_w_exact. Qed.
 Print Assumptions C01_ibig_cubic_word_level.
+
+(** ================================================================================================
+    Scratch memory (Int/RingScratch.v: words consumed, allocation by allocation, by karatsuba.rs / toom_3.rs /
+    helpers.rs / mul/mod.rs / sqr/mod.rs; DashuGen.MulMemory: the amounts reserved by memory_requirement_*,
+    regenerated from the source).  consumed <= reserved for EVERY length. *)
+Theorem C01_scratch_same_len_any_thresholds : forall T_simple T_kara, 1 <= T_simple -> 15 <= T_kara ->
+  forall fuel n, 0 <= n ->
+  0 <= need_same T_simple T_kara fuel n <= alloc_up_to T_simple T_kara n.
+Proof. exact need_same_le. Qed.
+Print Assumptions C01_scratch_same_len_any_thresholds.
+
+Theorem C01_scratch_any_lengths_any_thresholds : forall T_simple T_kara CHUNK, 1 <= T_simple -> 15 <= T_kara -> 1 <= CHUNK ->
+  forall fuel la lb, 0 <= la -> 0 <= lb ->
+  0 <= need_gen T_simple T_kara CHUNK fuel la lb <= alloc_up_to T_simple T_kara (Z.min la lb).
+Proof. exact need_gen_le. Qed.
+Print Assumptions C01_scratch_any_lengths_any_thresholds.
+
+(** the fuel of the consumption model suffices: any fuel above the length gives the same number *)
+Theorem C01_scratch_fuel : forall T_simple T_kara, 1 <= T_simple -> 15 <= T_kara ->
+  forall f1 f2 n, n < Z.of_nat f1 -> n < Z.of_nat f2 -> need_same T_simple T_kara f1 n = need_same T_simple T_kara f2 n.
+Proof. exact need_same_fuel. Qed.
+Print Assumptions C01_scratch_fuel.
+
+(** mul_ops.rs mul_large: MemoryAllocation::new(mul::memory_requirement_exact(res_len, min(la, lb))) suffices *)
+Theorem C01_scratch_mul : forall la lb, 0 <= la -> 0 <= lb ->
+  0 <= mul_need mul_threshold_simple mul_threshold_karatsuba mul_simple_chunk_len la lb
+    <= mul_memory_words_exact (la + lb) (Z.min la lb).
+Proof. exact mul_scratch_sufficient. Qed.
+Print Assumptions C01_scratch_mul.
+
+(** square_large / pow.rs: MemoryAllocation::new(sqr::memory_requirement_exact(len)) suffices; the formula is monotone *)
+Theorem C01_scratch_sqr : forall n, 0 <= n ->
+  0 <= sqr_need mul_threshold_simple mul_threshold_karatsuba sqr_max_len_simple n <= sqr_memory_words n.
+Proof. exact sqr_scratch_sufficient. Qed.
+Print Assumptions C01_scratch_sqr.
+
+Theorem C01_scratch_sqr_formula_monotone : forall a b, 0 <= a <= b -> sqr_memory_words a <= sqr_memory_words b.
+Proof. exact sqr_memory_words_mono. Qed.
+Print Assumptions C01_scratch_sqr_formula_monotone.
+
+(** the kernels as verif_hooks::mul_kernel reserves memory for them *)
+Theorem C01_scratch_kernels : forall which la lb, 0 <= lb <= la ->
+  (which = 1 -> lb <= mul_threshold_simple) ->
+  (which = 2 -> mul_threshold_simple < lb <= mul_threshold_karatsuba) -> (which = 3 -> mul_threshold_karatsuba < lb) ->
+  0 <= which <= 3 ->
+  kernel_need which la lb <= kernel_alloc which la lb.
+Proof. exact kernel_scratch_sufficient. Qed.
+Print Assumptions C01_scratch_kernels.
+
+(** ================================================================================================
+    pow.rs at word level with its storage bookkeeping (Int/RingPowW.v): exact result, canonical, and no push
+    beyond the requested capacity (exp + 1 resp. 2 exp words), no push_zeros without room, no scratch shortage;
+    shifts / trailing_zeros / set_bit are the word-level models of C09. *)
+Theorem C01_pow_word_base_word_level : forall w, 8 <= w -> forall div2by1,
+  (forall d a, norm1 w d -> 0 <= a < d * B w -> div2by1 d a = (a / d, a mod d)) ->
+  forall base e, 0 <= base < B w -> 3 <= e ->
+  exists r, pow_word_base_w w div2by1 src_T_simple src_T_kara src_SQR base e = Ok r /\ repr_value w r = base ^ e /\ twf w r.
+Proof. exact pow_word_base_w_exact. Qed.
+Print Assumptions C01_pow_word_base_word_level.
+
+Theorem C01_pow_dword_base_word_level : forall w, 8 <= w -> forall div2by1,
+  (forall d a, norm1 w d -> 0 <= a < d * B w -> div2by1 d a = (a / d, a mod d)) ->
+  forall base e, B w <= base < B w * B w -> 3 <= e ->
+  exists r, pow_dword_base_w w div2by1 src_T_simple src_T_kara src_SQR base e = Ok r /\ repr_value w r = base ^ e /\ twf w r.
+Proof. exact pow_dword_base_w_exact. Qed.
+Print Assumptions C01_pow_dword_base_word_level.
+
+Theorem C01_ubig_pow_word_level : forall w, 8 <= w -> forall div2by1,
+  (forall d a, norm1 w d -> 0 <= a < d * B w -> div2by1 d a = (a / d, a mod d)) ->
+  forall cap x e, twf w x -> 0 <= e ->
+  exists r, ubig_pow_w w div2by1 src_T_simple src_T_kara src_CHUNK src_SQR cap x e = Ok r /\
+    repr_value w r = pow_spec (repr_value w x) e /\ twf w r.
+Proof. exact ubig_pow_w_exact. Qed.
+Print Assumptions C01_ubig_pow_word_level.
+
+Theorem C01_ibig_pow_word_level : forall w, 8 <= w -> forall div2by1,
+  (forall d a, norm1 w d -> 0 <= a < d * B w -> div2by1 d a = (a / d, a mod d)) ->
+  forall cap s x e, twf w x -> 0 <= e ->
+  exists r, ibig_pow_w w div2by1 src_T_simple src_T_kara src_CHUNK src_SQR cap s x e = Ok r /\
+    srepr_value w r = pow_spec (signed s (repr_value w x)) e /\ twf w (snd r).
+Proof. exact ibig_pow_w_exact. Qed.
+Print Assumptions C01_ibig_pow_word_level.
+
+(** ================================================================================================
+    Primitive-operand forms (UBig + u64, i128 * IBig, u8 - UBig, x += 5u16 ...): conversion + operation
+    (Int/RingPrim.v).  [side]: big op prim | prim op big; [byref]: the big operand is borrowed. *)
+Theorem C01_prim_from_unsigned : forall w, 8 <= w -> forall p, 0 <= p ->
+  repr_value w (repr_from_unsigned w p) = p /\ twf w (repr_from_unsigned w p).
+Proof. exact repr_from_unsigned_ok. Qed.
+Print Assumptions C01_prim_from_unsigned.
+
+Theorem C01_prim_from_signed : forall w, 8 <= w -> forall bits x, 1 <= bits -> - 2 ^ (bits - 1) <= x < 2 ^ (bits - 1) ->
+  srepr_value w (ibig_from_signed w bits x) = x /\ twf w (snd (ibig_from_signed w bits x)).
+Proof. exact ibig_from_signed_ok. Qed.
+Print Assumptions C01_prim_from_signed.
+
+Theorem C01_ubig_prim : forall w, 8 <= w -> forall div2by1,
+  (forall d a, norm1 w d -> 0 <= a < d * B w -> div2by1 d a = (a / d, a mod d)) ->
+  forall op side byref x p, twf w x -> 0 <= p ->
+  let '(a, b) := match side with PLeft => (repr_value w x, p) | PRight => (p, repr_value w x) end in
+  match ubig_prim w div2by1 src_T_simple src_T_kara src_CHUNK src_SQR op side byref x p, ubig_prim_spec op a b with
+  | Ok r, Ok v => repr_value w r = v /\ twf w r
+  | Panic NegativeUBig, Panic NegativeUBig => True
+  | _, _ => False
+  end.
+Proof. exact ubig_prim_exact. Qed.
+Print Assumptions C01_ubig_prim.
+
+Theorem C01_ibig_prim : forall w, 8 <= w -> forall div2by1,
+  (forall d a, norm1 w d -> 0 <= a < d * B w -> div2by1 d a = (a / d, a mod d)) ->
+  forall op side byref x q, twf w (snd x) -> twf w (snd q) ->
+  let '(a, b) := match side with PLeft => (srepr_value w x, srepr_value w q) | PRight => (srepr_value w q, srepr_value w x) end in
+  exists r, ibig_prim w div2by1 src_T_simple src_T_kara src_CHUNK src_SQR op side byref x q = Ok r /\
+            srepr_value w r = ibig_prim_spec op a b /\ twf w (snd r).
+Proof. exact ibig_prim_exact. Qed.
+Print Assumptions C01_ibig_prim.
